@@ -57,8 +57,9 @@ class Env(object):
 
         self.tmp = tempfile.mkdtemp(prefix="vcheck-c20-")
         os.makedirs(os.path.join(self.tmp, "data"))
-        with open(os.path.join(self.tmp, "data", "x.csv"), "w") as f:
-            f.write("a\n1\n")
+        for rel in (os.path.join("data", "x.csv"), ".hidden.csv", os.path.join("data", "with space é.csv")):
+            with open(os.path.join(self.tmp, rel), "w") as f:
+                f.write("a\n1\n")
         # with_wd: True (absolute directory), False (None) or "empty" (the empty string, which is what the command-line
         # tool passes for a command file named without a directory: relative paths are then relative to the cwd)
         self.wd = "" if with_wd == "empty" else (self.tmp if with_wd else None)
@@ -171,7 +172,13 @@ def make_raw(spec, env, nested=False):
         return numpy.ma.array([1.0, 2.0])
     if t == "path":
         base = {"abs_existing": os.path.join(env.tmp, "data", "x.csv"), "abs_missing": os.path.join(env.tmp, "data", "missing.csv"),
-                "rel_existing": os.path.join("data", "x.csv"), "rel_missing": os.path.join("data", "missing.csv")}
+                "rel_existing": os.path.join("data", "x.csv"), "rel_missing": os.path.join("data", "missing.csv"),
+                # relative paths that do not start with a name: through the parent directory, with a leading "./", a dot-file;
+                # "parent_shadow" does not exist although a file of the same name sits below the working directory
+                "parent_existing": os.path.join("..", os.path.basename(env.tmp), "data", "x.csv"),
+                "parent_shadow": os.path.join("..", "data", "x.csv"),
+                "dotslash_existing": os.path.join(".", "data", "x.csv"), "dotfile_existing": ".hidden.csv",
+                "spaces_existing": os.path.join("data", "with space é.csv")}
         return base[spec["kind"]]
     raise ValueError(t)
 
@@ -520,10 +527,11 @@ RAW_POOL = [
     {"t": "bool", "v": 1}, {"t": "bool", "v": 0},
     NP("float32", 0.5), NP("float32", 1.5), NP("float16", -0.75), NP("float64", 2.5), NP("int64", 3), NP("int32", 0), NP("float32", 2.0),
     S("12"), S("-7"), S("+3"), S("1.5"), S(".5"), S("2."), S("abc"), S(""), S("true"), S("False"), S("TRUE"), S("0"), S("1"),
-    S("2"), S(" 7 "), S("1e5"), S("nan"), S("inf"), S("1e999"), S("-Infinity"), S("Float"), S("Integer"), S("Positive Float"), S("Fuzzy"), S("float"),
+    S("2"), S(" 7 "), S("-1"), S("+-1"), S("--1"), S("\u00b2"), S("\u2460"), S("1\u00b2"), S("\u0663"), S("1_0"), S("1e5"), S("nan"), S("inf"), S("1e999"), S("-Infinity"), S("Float"), S("Integer"), S("Positive Float"), S("Fuzzy"), S("float"),
     S("PData"), S("PFuzzy"), S("PNum"), S("USrc"), S("UNoOut"), S("URead"), S("UFz"), S("UPrint"), S("Missing"), S("café"),
     {"t": "path", "kind": "abs_existing"}, {"t": "path", "kind": "abs_missing"}, {"t": "path", "kind": "rel_existing"},
-    {"t": "path", "kind": "rel_missing"},
+    {"t": "path", "kind": "rel_missing"}, {"t": "path", "kind": "parent_existing"}, {"t": "path", "kind": "parent_shadow"},
+    {"t": "path", "kind": "dotslash_existing"}, {"t": "path", "kind": "dotfile_existing"}, {"t": "path", "kind": "spaces_existing"},
     L(), L(I(1), I(2)), L(Fl(2.5), Fl(0.5)), L(I(3), I(1), I(2)), L(S("b"), S("a")), L(L(I(2), I(1)), L(I(0))), L(Fl(0.5), S("2")), L(S("a"), S("b")), L(S("true"), I(0)), L(L(I(1)), L(I(2), Fl(3.5))), L(L()),
     L(S("PData"), S("UFz")), L(S("PData"), S("Missing")), L(L(S("PData")), L(S("PFuzzy"), S("URead"))),
     {"t": "listarg", "items": [I(1), S("2")]}, {"t": "listarg", "items": [{"t": "listarg", "items": [I(1)]}, {"t": "listarg", "items": []}]},
@@ -579,7 +587,8 @@ def raw_scalars():
         st.text(alphabet=st.sampled_from(list("abcTRUEfalse _-/.é")), max_size=8).map(S),
         st.sampled_from(["PData", "PFuzzy", "PNum", "USrc", "UNoOut", "URead", "UFz", "UPrint", "Nope", "True", "FALSE", "Float", "Integer"]).map(S),
         st.sampled_from(["PData", "PFuzzy", "PNum", "USrc", "UNoOut", "URead", "UFz", "UPrint"]).map(lambda n: {"t": "cmd", "name": n}),
-        st.sampled_from(["abs_existing", "abs_missing", "rel_existing", "rel_missing"]).map(lambda k: {"t": "path", "kind": k}),
+        st.sampled_from(["abs_existing", "abs_missing", "rel_existing", "rel_missing", "parent_existing", "parent_shadow",
+                         "dotslash_existing", "dotfile_existing", "spaces_existing"]).map(lambda k: {"t": "path", "kind": k}),
     )
 
 
